@@ -86,7 +86,15 @@ fn main() {
                             let mut msg = String::new();
                             span.display(&mut msg, recording!()).map(|_| msg)
                         }));
-                        writeln!(out, "D={} R={}", show(d), show(r)).unwrap();
+                        // the same through placeholders that carry a precision / width / alignment: the snippet is not a single padded
+                        // string, every form must print what `{}` prints
+                        let f = catch_unwind(AssertUnwindSafe(|| {
+                            let base = format!("{}", span);
+                            [format!("{:.1}", span), format!("{:6}", span), format!("{:>9}", span), format!("{:*^4.2}", span)]
+                                .iter()
+                                .all(|x| *x == base)
+                        }));
+                        writeln!(out, "D={} R={} F={}", show(d), show(r), if f.unwrap_or(true) { "1" } else { "0" }).unwrap();
                     }
                 }
             }
@@ -106,7 +114,13 @@ fn main() {
                             let mut msg = String::new();
                             pos.display(&mut msg, recording!()).map(|_| msg)
                         }));
-                        writeln!(out, "D={} R={}", show(d), show(r)).unwrap();
+                        let f = catch_unwind(AssertUnwindSafe(|| {
+                            let base = format!("{}", pos);
+                            [format!("{:.1}", pos), format!("{:6}", pos), format!("{:>9}", pos), format!("{:*^4.2}", pos)]
+                                .iter()
+                                .all(|x| *x == base)
+                        }));
+                        writeln!(out, "D={} R={} F={}", show(d), show(r), if f.unwrap_or(true) { "1" } else { "0" }).unwrap();
                     }
                 }
             }
